@@ -38,11 +38,17 @@ def read_header(buf, off=0):
     p = off + 1
     if number == 0x1F:
         number = 0
+        k = 0
         while True:
             if p >= n:
                 raise Incomplete()
             o = buf[p]
             p += 1
+            k += 1
+            if k > 64:
+                # a tag number of more than 448 bits: not a header anybody wrote on purpose (and big-integer arithmetic over a
+                # megabyte of 0xFF octets would take minutes)
+                raise Indefinite()
             number = (number << 7) | (o & 0x7F)
             if not o & 0x80:
                 break
